@@ -611,6 +611,18 @@ func (h *c17Hist) run() error {
 	if err := h.opPost(); err != nil {
 		return err
 	}
+	// directed (every second history): one account posts the same merkle twice at one height, under the lower-case
+	// and under the upper-case spelling of its address (the latter as a pay-once post): two files by content, and
+	// both listings must show both
+	if h.hid%2 == 0 {
+		d := h.datas[0]
+		if err := h.postWith(d, h.owners[0], d.Size, 3, 0, "{}"); err != nil {
+			return err
+		}
+		if err := h.postWith(d, h.owners[len(h.owners)-1], d.Size, 3, h.e.Height+14400*5, "{}"); err != nil {
+			return err
+		}
+	}
 	for i := 0; i < steps; i++ {
 		x := p.Intn(tot)
 		name := ""
@@ -707,6 +719,11 @@ func (h *c17Hist) opPost() error {
 		expires = e.Height + 14400*(2+p.I64n(20))
 	}
 	note := PickOne(p, []string{"{}", "{\"a\":1}", "{}", "{}", "{\"k\":\"v\"}", "{}", "{}", "{}", "{}", "{}", "{}", "not json"})
+	return h.postWith(d, owner, size, maxp, expires, note)
+}
+
+func (h *c17Hist) postWith(d *c17Data, owner string, size, maxp, expires int64, note string) error {
+	e := h.e
 	msg := &storagetypes.MsgPostFile{Creator: owner, Merkle: d.Merkle, FileSize: size, ProofType: 0, MaxProofs: maxp, Expires: expires, Note: note}
 	pre := h.cur
 	res := e.Run(msg)
